@@ -245,7 +245,7 @@ pub fn find(args: &[String]) -> i32 {
     for x in 0..total {
       let b: Vec<u8> = (0..len).map(|i| ((x >> (8 * i)) & 0xff) as u8).collect();
       tried += 1;
-      if let Some(why) = check(&b, false) {
+      if let Some(why) = check(&b, true) {
         return report(tried, &b, &why);
       }
     }
@@ -256,7 +256,7 @@ pub fn find(args: &[String]) -> i32 {
   loop {
     let b: Vec<u8> = idx.iter().map(|&i| ALPHA[i]).collect();
     tried += 1;
-    if let Some(why) = check(&b, false) {
+    if let Some(why) = check(&b, true) {
       return report(tried, &b, &why);
     }
     let mut k = idx.len();
@@ -295,7 +295,7 @@ pub fn find(args: &[String]) -> i32 {
       }
       b.push(0x01);
       tried += 1;
-      if let Some(why) = check(&b, false) {
+      if let Some(why) = check(&b, true) {
         return report(tried, &b, &why);
       }
     }
@@ -316,7 +316,7 @@ pub fn find(args: &[String]) -> i32 {
         }
         b.push(0xff);
         tried += 1;
-        if let Some(why) = check(&b, false) {
+        if let Some(why) = check(&b, true) {
           return report(tried, &b, &why);
         }
         let mut k = 0;
@@ -356,7 +356,7 @@ pub fn raw(args: &[String]) -> i32 {
 pub fn replay(args: &[String]) -> i32 {
   let w: serde_json::Value = serde_json::from_str(&args[0]).expect("witness json");
   let input = unhex(w["input_hex"].as_str().unwrap());
-  let strict = w["strict"].as_bool().unwrap_or(false);
+  let strict = w["strict"].as_bool().unwrap_or(true);
   match check(&input, strict) {
     Some(why) => {
       println!("{{\"violates\":true,\"real\":{}}}", jstr(&why));
